@@ -445,8 +445,9 @@ def gen_action(w, kind, action_map):
     elif kind == "set_contact_field":
         nm = word(rng)
         a["field"] = {"key": nm.lower().replace(" ", "_"), "name": nm}
-        if w.f.get("typed_field") and rng.random() < 0.7:
-            a["field"]["type"] = rng.choice(["text", "numeric", "datetime"])
+        if rng.random() < 0.45:
+            # an ordinary case since "fix: a typed contact field reference renders its own type"
+            a["field"]["type"] = rng.choice(["text", "numeric", "datetime", "state", "district", "ward"])
             w.count("typed_field_ref")
         elif rng.random() < 0.15:
             a["field"]["type"] = rng.choice([None, ""])
@@ -561,13 +562,26 @@ def gen_switch_router(w, node_ids, fixed_operand=None):
             rng.shuffle(e2)
         exits = e2
         w.count("exits_not_in_category_order")
-    if w.f.get("shared_exit") and len(r["categories"]) >= 2 and rng.random() < 0.6:
-        a, b = rng.sample(range(len(r["categories"])), 2)
-        dropped = r["categories"][b]["exit_uuid"]
-        r["categories"][b]["exit_uuid"] = r["categories"][a]["exit_uuid"]
-        exits = [e for e in exits if e["uuid"] != dropped]
-        w.count("exit_shared_by_categories")
+    exits = share_exit(w, r["categories"], exits, 0.2)
     return r, exits
+
+
+def share_exit(w, cats, exits, p):
+    """two categories referencing one exit: an ordinary case since "fix: an exit shared by several
+    categories of a router is rendered once".  The shared exit stands where its first category
+    stands (canonical); with the exit_order input class it may stand at the later one."""
+    rng = w.rng
+    if len(cats) >= 2 and rng.random() < p:
+        a, b = sorted(rng.sample(range(len(cats)), 2))
+        if w.f.get("exit_order") and rng.random() < 0.5:
+            a, b = b, a
+            w.count("exits_not_in_category_order")
+        if cats[b]["exit_uuid"] != cats[a]["exit_uuid"]:
+            dropped = cats[b]["exit_uuid"]
+            cats[b]["exit_uuid"] = cats[a]["exit_uuid"]
+            exits = [e for e in exits if e["uuid"] != dropped]
+            w.count("exit_shared_by_categories")
+    return exits
 
 
 def gen_random_router(w, node_ids):
@@ -589,6 +603,7 @@ def gen_random_router(w, node_ids):
             rng.shuffle(e2)
         exits = e2
         w.count("exits_not_in_category_order")
+    exits = share_exit(w, cats, exits, 0.15)
     return r, exits
 
 
@@ -708,7 +723,10 @@ def gen_trigger(w):
     return t
 
 
-FEATURES = ["typed_field", "group_attrs", "default_not_last", "exit_order", "shared_exit"]
+# input classes of the findings that are still open (category/exit order is rebuilt from the router's
+# category slots).  Typed field references and top-level group attributes used to be here: since their
+# repairs they are ordinary cases of every stream; so are exits shared by categories.
+FEATURES = ["default_not_last", "exit_order"]
 
 
 def gen_doc(rng, feats, action_map):
@@ -739,12 +757,16 @@ def gen_doc(rng, feats, action_map):
     groups = []
     for g in w.groups:
         g = dict(g)
-        if "group_attrs" in feats and rng.random() < 0.7:
-            for k in rng.sample(GROUP_OPT, rng.choice([1, 2, 4])):
-                g[k] = {"query": rng.choice(["age > 10", ""]), "status": rng.choice(["ready", "initializing"]),
+        r = rng.random()
+        if r < 0.5:
+            # an ordinary case since "fix: validate() keeps query/status/system/count of the container's groups";
+            # attributes in the order RapidPro writes them, or (for 2 of them) reversed
+            ks = [k for k in GROUP_OPT if rng.random() < 0.6] or [rng.choice(GROUP_OPT)]
+            for k in ks:
+                g[k] = {"query": rng.choice(["age > 10", "", None]), "status": rng.choice(["ready", "initializing"]),
                         "system": rng.choice([True, False]), "count": rng.choice([0, 12])}[k]
             w.count("top_level_group_with_attrs")
-        elif rng.random() < 0.3:
+        elif r < 0.65:
             g["query"] = None
         if rng.random() < 0.5:
             g = dict(reversed(list(g.items())))
@@ -787,6 +809,11 @@ def malform(rng, d):
     d = copy.deepcopy(d)
     objs = [p for p, k in paths_of(d, [], []) if k == "dict" and not (set(map(str, p)) & OPAQUE) and not any(str(x).startswith("x_") for x in p)
             and "_ui" not in p]
+    if d.get("groups") and rng.random() < 0.15:
+        # not a fault of structure: a group that is referenced (or not) but missing from the top-level list;
+        # validate() must add every referenced group at the end of the list (model and code must agree)
+        del d["groups"][rng.randrange(len(d["groups"]))]
+        return "unlisted_group", d
     for _ in range(20):
         kind = rng.choice(["drop_key", "drop_key", "add_key", "dangling", "bad_type", "uuid_clash", "null_uuid"])
         p = rng.choice(objs)
@@ -969,6 +996,14 @@ def run(ctx):
         if len(samples) < 3 and i % 97 == 5:
             samples.append(json.dumps(d)[:300])
 
+    # which of the repaired behaviours the tree under check has (the model follows these regenerated probes)
+    try:
+        import re
+        tv = open(os.path.join(os.path.dirname(os.path.dirname(os.path.abspath(__file__))), "coq", "theories", "Gen", "Tables.v")).read()
+        ctx.stats["repair_probes"] = {k: b == "true" for k, b in re.findall(
+            r"Definition (fieldref_renders_own_type|validate_keeps_group_attrs|router_lists_shared_exit_once) : bool := (true|false)\.", tv)}
+    except OSError:
+        pass
     ctx.stats["documents"] = dist
     ctx.stats["constructs"] = dict(sorted(kinds_total.items()))
     ctx.stats["malformed_kinds"] = mal_kinds
@@ -976,10 +1011,12 @@ def run(ctx):
     v.coverage["distinct_nontrivial"] = len(nontrivial)
     v.coverage["rule"] = (
         "generated RapidPro export documents: 55% canonical (the stream on which the property must hold: every action kind of "
-        "action_map incl. pass-through kinds with unknown extra fields, optional fields present/absent/empty/null, categories shared "
+        "action_map incl. pass-through kinds with unknown extra fields, optional fields present/absent/empty/null, typed and untyped "
+        "contact-field references, top-level groups with and without query/status/system/count, categories shared "
         "by cases, all node kinds, 0..8 nodes, _ui positions, campaigns with M/F events, triggers in new/keywords-only/legacy form, "
-        "shuffled key order), 30% with defect-trigger input classes (typed field reference, top-level group attributes, default "
-        "category not last, exits not in category order, exit shared by categories), 15% malformed (one structural fault). "
+        "exits shared by two categories, shuffled key order), 30% with the input classes of the open findings (default "
+        "category not last, exits not in category order), 15% malformed (one structural fault, or a group missing from the "
+        "top-level list). "
         "Each valid document: oracle render(load d) vs norm d field by field + idempotence + input untouched on the implementation; "
         "every document: extracted model vs implementation on the full output. non-trivial = distinct set of construct kinds "
         "(node/action/trigger/event kinds, optional-field situations) of a document with at least one node")
@@ -988,6 +1025,9 @@ def run(ctx):
         "JSON numbers that are not integers travel as their repr (never inspected by load/render)",
         "invented uuids (uuid4) never collide with given ones; compared as an anonymous marker",
         "`_ui` type/config of a node entry are re-synthesised by the toolkit and are outside the projection (positions are compared)",
+        "three behaviours that were repaired (typed field reference, top-level group attributes, shared exit) are read from the tree "
+        "under check by translator probes; the model mirrors whichever behaviour the tree has and the theorems are stated for both "
+        "(`if probe then holds else refuted`), the oracle never looks at the probes",
     ]
 
 
